@@ -366,6 +366,109 @@ def part_sched_globals(case):
             "solo": solo}
 
 
+# ------------------------------------------------------------------------------------------ part 1c: the AES round-key memo under the controlled scheduler
+def part_sched_cache(case):
+    """k threads asking the module-level LRU memo of AES round keys (at capacity) for keys: a hit on the oldest entry, misses that evict.  Every
+    operation on the shared OrderedDict is a scheduling point; all interleavings.  Each thread must get the round keys of *its* key, nobody raises,
+    the memo stays within its capacity."""
+    from collections import OrderedDict
+    from sharepoint2text.parsing.extractors.pdf import _pypdf_aes_fallback as A
+    from vlib.mon import sched
+    import random
+    k = case["threads"]
+    current = {"run": None}
+    cap = A._ROUND_KEY_CACHE_MAX
+
+    def pt(label):
+        r = current["run"]
+        if r is not None:
+            r.point(label)
+
+    class Hooked(OrderedDict):
+        def get(self, key, default=None):
+            pt("get")
+            return OrderedDict.get(self, key, default)
+
+        def move_to_end(self, key, last=True):
+            pt("move_to_end")
+            return OrderedDict.move_to_end(self, key, last)
+
+        def __setitem__(self, key, value):
+            pt("set")
+            return OrderedDict.__setitem__(self, key, value)
+
+        def popitem(self, last=True):
+            pt("popitem")
+            return OrderedDict.popitem(self, last)
+
+        def __len__(self):
+            pt("len")
+            return OrderedDict.__len__(self)
+
+        def __contains__(self, key):
+            pt("contains")
+            return OrderedDict.__contains__(self, key)
+
+        def __getitem__(self, key):
+            pt("getitem")
+            return OrderedDict.__getitem__(self, key)
+    resident = [bytes([0x10 + i]) * 16 for i in range(cap)]
+    fresh = [bytes([0x80 + i]) * (16, 32, 24)[i % 3] for i in range(k)]
+    # thread 0 asks for the oldest resident key (a hit whose entry is the next to be evicted), the others for keys that are not in the memo
+    wanted = [resident[0]] + fresh[: k - 1] if case.get("shape", "hit+miss") == "hit+miss" else [resident[0], resident[1]] + fresh[: k - 2]
+    expect = [A._expand_key(w) for w in wanted]
+    real_cache = A._ROUND_KEY_CACHE
+    real_locks = {n: v for n, v in vars(A).items() if isinstance(v, (type(threading.Lock()), type(threading.RLock())))}
+    sched_locks = {n: _SchedLock(current, isinstance(v, type(threading.RLock()))) for n, v in real_locks.items()}
+    for n, l in sched_locks.items():
+        setattr(A, n, l)
+    bad = []
+    orig_run = sched.Run
+    sched.Run = _lock_aware_run(sched, current, float(case.get("stall_s", 5.0)))
+    try:
+        def make_fns():
+            c = Hooked()
+            for r_ in resident:
+                OrderedDict.__setitem__(c, r_, A._expand_key(r_))
+            A._ROUND_KEY_CACHE = c
+            for l in sched_locks.values():
+                l.owner, l.depth = None, 0
+            got = [None] * k
+
+            def body(idx):
+                got[idx] = A._get_round_keys(wanted[idx])
+            return [body] * k, (got, c)
+
+        def on_schedule(run, ctx, sid):
+            current["run"] = None
+            got, c = ctx
+            trace = " ".join(f"T{t}:{lbl}" for t, lbl in run.trace if lbl != "start")
+            if run.errors:
+                bad.append({"sym": "thread-raised", "detail": run.errors[0][:200], "trace": trace})
+            for i in range(k):
+                if got[i] is not None and got[i] != expect[i]:
+                    bad.append({"sym": "wrong-round-keys-returned", "detail": f"thread {i} got the round keys of another key", "trace": trace})
+            if OrderedDict.__len__(c) > cap:
+                bad.append({"sym": "memo-exceeds-capacity", "detail": f"{OrderedDict.__len__(c)} entries, capacity {cap}", "trace": trace})
+        try:
+            stats = sched.explore(make_fns, k, on_schedule, max_schedules=case.get("max_schedules"), preemption_bound=case.get("preemption_bound"),
+                                  rng=random.Random(case.get("seed", 0)), random_schedules=case.get("random_schedules", 0))
+        except sched.Deadlock as e:
+            stats = {"schedules": 0, "complete": False, "max_depth": 0, "blocked_seen": 0, "with_preemption": 0, "distinct_traces": 0}
+            bad.append({"sym": "deadlock", "detail": str(e)[:300], "trace": str(e)[-300:]})
+    finally:
+        sched.Run = orig_run
+        current["run"] = None
+        A._ROUND_KEY_CACHE = real_cache
+        for n, real in real_locks.items():
+            setattr(A, n, real)
+    first = {}
+    for b in bad:
+        first.setdefault(b["sym"], b)
+        first[b["sym"]]["count"] = first[b["sym"]].get("count", 0) + 1
+    return {"part": "sched-cache", "threads": k, "stats": stats, "problems": list(first.values()), "locks": sorted(real_locks)}
+
+
 class _SchedLock:
     """Stand-in for a threading.Lock / RLock of the library while schedules are explored: acquisition is a scheduling point and a
     thread that cannot get the lock is parked as *not enabled* until the owner releases it."""
@@ -532,6 +635,11 @@ def part_stress(case):
     before = snapshot()
     lock = threading.Lock()
     old = sys.getswitchinterval()
+    # control twin of the "memo at capacity" feature: the same documents with a memo that never has to evict
+    from sharepoint2text.parsing.extractors.pdf import _pypdf_aes_fallback as _A
+    cache_max = _A._ROUND_KEY_CACHE_MAX
+    if case.get("no_memo_eviction"):
+        _A._ROUND_KEY_CACHE_MAX = 1 << 30
     sys.setswitchinterval(1e-6)
     runs = [0]
 
@@ -561,6 +669,9 @@ def part_stress(case):
             t.join()
     finally:
         sys.setswitchinterval(old)
+        _A._ROUND_KEY_CACHE_MAX = cache_max
+        if case.get("no_memo_eviction"):
+            _A._ROUND_KEY_CACHE.clear()
     gc.collect()
     after = snapshot()
     for k2 in before:
@@ -638,7 +749,7 @@ def part_baseline(case):
 def work(case):
     from vlib.worker import arm_cpu
     arm_cpu(300)
-    return {"scheduler": part_scheduler, "stress": part_stress, "history": part_history, "baseline": part_baseline, "sched-globals": part_sched_globals}[case["part"]](case)
+    return {"scheduler": part_scheduler, "stress": part_stress, "history": part_history, "baseline": part_baseline, "sched-globals": part_sched_globals, "sched-cache": part_sched_cache}[case["part"]](case)
 
 
 # ------------------------------------------------------------------------------------------ parent
@@ -695,6 +806,9 @@ def main(run):
         setter_cases.append({"part": "sched-globals", "steps": [rng.choice(deep), rng.choice(deep + plainish)] + ([rng.choice(plainish)] if rng.random() < 0.5 else []),
                              "seed": run.seed * 100 + i, "max_schedules": run.n(100, 1000)})
     cases += setter_cases
+    # the AES round-key memo at capacity: a hit on the entry that is next to be evicted against misses that evict (all interleavings for 2 threads)
+    cases += [{"part": "sched-cache", "threads": 2, "seed": run.seed}, {"part": "sched-cache", "threads": 3, "seed": run.seed, "preemption_bound": 2, "max_schedules": run.n(400, 6000)},
+              {"part": "sched-cache", "threads": 3, "shape": "two-hits+miss", "seed": run.seed, "max_schedules": 1, "random_schedules": run.n(200, 3000)}]
     stress_cases = []
     for i in range(run.n(6, 60)):
         ins = rng.sample(pdfs, min(len(pdfs), 5)) + rng.sample(others, min(len(others), 3))
@@ -727,6 +841,11 @@ def main(run):
         # (the AES-256 member takes seconds per extraction: it stays in the histories, the threads get the cheap members)
         stress_cases.append({"part": "stress", "seed": run.seed * 1000 + 500 + gi, "threads": 8, "iterations": run.n(10, 30), "group": g["name"],
                              "inputs": [[k, s, pidx_of(s)] for k, s in g["members"] if not (s[0] == "raw" and "aes256" in str(s[2:]))]})
+        if g["name"] == "pdf:cipher-kernel/document-key":
+            # the per-object keys of these documents outnumber the round-key memo (capacity 4): concurrent decryption evicts all the time.  The
+            # case above runs with a memo that never evicts (control twin); this one with the memo as shipped, its problems keyed by that feature
+            stress_cases[-1]["no_memo_eviction"] = True
+            stress_cases.append(dict(stress_cases[-1], no_memo_eviction=False, seed=run.seed * 1000 + 900 + gi, feature_suffix="+round-key-memo-evicting"))
     hist_cases = []
     pool_steps = [[k, {"src": s, "op": None}] for k, s in pdfs + others]
     # failing / damaged inputs of every kind in the pool (archives included: a failure half-way through unpacking must clean up too)
@@ -813,6 +932,15 @@ def main(run):
                 run.violation(f"C15:pypdf-patch:{case['threads']}-threads:{p['sym']}", f"{p['detail']} in {p.get('count', 1)} of {st['schedules']} schedules; first schedule: {p['trace']}", {"case": case, "trace": p["trace"]})
             if len(run.samples) < 5:
                 run.samples.append({"part": "scheduler", "threads": case["threads"], "schedules": st["schedules"], "complete": st["complete"], "distinct_traces": st["distinct_traces"]})
+        elif part == "sched-cache":
+            st = ob["stats"]
+            run.count(f"round_key_memo_schedules_{case['threads']}_threads", st["schedules"])
+            run.count("round_key_memo_explorations_complete", 1 if st["complete"] else 0)
+            run.evaluations += st["schedules"]
+            run.distinct.add(f"memo:{case['threads']}:{case.get('shape')}:{st['distinct_traces'] // 50}:{len(ob['problems'])}")
+            for p in ob["problems"]:
+                run.violation(f"C15:aes-round-key-memo:{case['threads']}-threads:{p['sym']}", f"{p['detail']} in {p.get('count', 1)} of {st['schedules']} schedules; first schedule: {p['trace']}",
+                              {"case": case, "trace": p["trace"]})
         elif part == "sched-globals":
             st = ob["stats"]
             run.count("setter_exploration_cases_finished")
@@ -836,6 +964,8 @@ def main(run):
                 run.count("stress_extractions_on_encrypted_pdfs", ob["extractions"])
             for p in ob["problems"]:
                 feat = p.get("feature")
+                if feat and "encrypted" in feat and case.get("feature_suffix"):
+                    feat += case["feature_suffix"]
                 if p.get("part") == "history":
                     run.violation(f"C15:history:{feat or 'sequence'}:{p['sym']}", p["detail"], rep)
                 else:
@@ -880,6 +1010,8 @@ def main(run):
     run.require("baselines", len(baselines), 10)
     run.require("history_results_compared_with_isolated_baseline", run.counters.get("history_results_compared_with_isolated_baseline", 0), run.n(300, 3000))
     run.require("context_groups", len(groups), 39)
+    run.require("round_key_memo_schedules_2_threads", run.counters.get("round_key_memo_schedules_2_threads", 0), 20)
+    run.require("round_key_memo_schedules_3_threads", run.counters.get("round_key_memo_schedules_3_threads", 0), 300)
     run.require("setter_exploration_cases_finished", run.counters.get("setter_exploration_cases_finished", 0), run.n(5, 20))
     run.require("setter_hook_points_seen_in_self_test", run.counters.get("setter_hook_points_seen_in_self_test", 0), 4)
     run.require("stress_extractions_on_encrypted_pdfs", run.counters.get("stress_extractions_on_encrypted_pdfs", 0), run.n(60, 200))
